@@ -28,6 +28,8 @@ def ent_py(n):
 def iid(case, i):
     """number of instance i (1-based index) in logs and in the Coq case: the
     instances whose lifecycle callbacks raise during a release are >= 1000"""
+    if i in case.get('disablers', ()):
+        return i + 2000      # on_add / on_remove set dispatch_enabled = False during a release
     return i + 1000 if i in case.get('raisers', ()) else i
 
 
@@ -71,21 +73,25 @@ def run(case):
         tuple(world.entities)
         world.processors
 
+    def halt(me):
+        if releasing[0] and me._lid >= 2000:
+            world.dispatch_enabled = False
+        elif releasing[0] and me._lid >= 1000:
+            raise Marker()
+
     def mk_class(t, kind):
         ns = {}
         if 'a' in kind:
             def on_add(self, entity, w):
                 log.append(['a', self._lid, ent_z(entity), w is world])
                 snoop(entity)
-                if releasing[0] and self._lid >= 1000:
-                    raise Marker()
+                halt(self)
             ns['on_add'] = on_add
         if 'r' in kind:
             def on_remove(self, entity, w):
                 log.append(['r', self._lid, ent_z(entity), w is world])
                 snoop(entity)
-                if releasing[0] and self._lid >= 1000:
-                    raise Marker()
+                halt(self)
             ns['on_remove'] = on_remove
         if 'p' in kind:
             def probe(self, tok):
@@ -122,7 +128,24 @@ def run(case):
             qs.append(['comps', e])
         for i in range(1, len(insts)):
             qs.append(['ish', i])
+        for t in range(1, len(classes)):
+            qs.append(['get', t])
+            for e in known_ids:
+                qs.append(['has', e, t])
+                qs.append(['getc', e, t])
         return qs
+
+    def focus_queries(o):
+        # the component queries about the entity the operation names
+        if o[0] in ('create', 'add', 'remove', 'delete') and o[1] is not None:
+            ts = list(range(1, len(classes)))
+            rng.shuffle(ts)
+            out = [['exists', o[1]]]
+            for t in ts[:2]:
+                out += [['has', o[1], t], ['getc', o[1], t]]
+            out.append(['get', ts[0]])
+            return out
+        return []
 
     def ask(q):
         if q[0] == 'entities':
@@ -132,6 +155,14 @@ def run(case):
         if q[0] == 'comps':
             return ['comps', q[1], [lid.get(id(c), -99)
                                     for c in world.get_components(ent_py(q[1]))]]
+        if q[0] == 'has':
+            return ['has', q[1], q[2], bool(world.has_component(ent_py(q[1]), classes[q[2]]))]
+        if q[0] == 'getc':
+            c = world.get_component(ent_py(q[1]), classes[q[2]])
+            return ['getc', q[1], q[2], None if c is None else lid.get(id(c), -99)]
+        if q[0] == 'get':
+            return ['get', q[1], [[ent_z(e), lid.get(id(c), -99)]
+                                  for e, c in world.get(classes[q[1]])]]
         o = insts[q[1]]
         r = hasattr(o, '__events__') and bool(world.is_handler(o))
         return ['ish', o._lid, r]
@@ -198,7 +229,7 @@ def run(case):
         del log[:]
         qs = all_queries()
         if k < nops - 1 and len(qs) > 6:
-            qs = rng.sample(qs, 6)
+            qs = rng.sample(qs, 6) + focus_queries(o)
         answers = []
         for q in qs:
             try:
@@ -207,7 +238,13 @@ def run(case):
                 answers.append(['exists', 0, True])     # entity 0 never exists: rejected
         if log:                                        # a query must not call back
             exc = 2
-        out.append(dict(ret=ret, exc=exc, done=done, log=oplog, qs=answers))
+        ob = dict(ret=ret, exc=exc, done=done, log=oplog, qs=answers)
+        if o[0] == 'enable' and o[1] and exc == 0 and not world.dispatch_enabled:
+            # a callback executed  dispatch_enabled = False  during the release: that
+            # nested assignment becomes the next operation of the recorded history
+            ob['exc'] = 4
+            ob['stopped'] = True
+        out.append(ob)
     return {'obs': out}
 
 
@@ -244,6 +281,12 @@ def enc_q(q):
         return '(QExists %s %s)' % (z(q[1]), b(q[2]))
     if q[0] == 'comps':
         return '(QComps %s %s)' % (z(q[1]), lst([z(i) for i in q[2]]))
+    if q[0] == 'has':
+        return '(QHas %s %s %s)' % (z(q[1]), z(q[2]), b(q[3]))
+    if q[0] == 'getc':
+        return '(QGetC %s %s %s)' % (z(q[1]), z(q[2]), opt(None if q[3] is None else z(q[3])))
+    if q[0] == 'get':
+        return '(QGet %s %s)' % (z(q[1]), lst(['(%s, %s)' % (z(e), z(i)) for e, i in q[2]]))
     return '(QIsH %s %s)' % (z(q[1]), b(q[2]))
 
 
@@ -264,8 +307,14 @@ def encode(case, trace):
     if 'obs' not in trace or len(trace['obs']) != len(case['ops']):
         tr = BAD_TRACE                      # hang / crash: an unacceptable trace
     else:
-        tr = lst(['(%s, %s)' % (enc_op(o, lambda i: iid(case, i)), enc_obs(ob))
-                  for o, ob in zip(case['ops'], trace['obs'])])
+        items = []
+        for o, ob in zip(case['ops'], trace['obs']):
+            if ob.get('stopped'):
+                items.append('(%s, %s)' % (enc_op(o), enc_obs(dict(ob, qs=[]))))
+                items.append('((SetEnabled false), %s)' % enc_obs(dict(ob, exc=0, log=[])))
+            else:
+                items.append('(%s, %s)' % (enc_op(o, lambda i: iid(case, i)), enc_obs(ob)))
+        tr = lst(items)
     return '{| c_p := %s; c_tr := %s |}' % (params, tr)
 
 
@@ -323,7 +372,14 @@ def gen_case(rng, nops_max=25, focus=None):
     if raise_mode:
         cand = [i for i in range(1, ninst + 1) if set('ar') & set(kinds[cls[i - 1] - 1])]
         if cand:
-            case['raisers'] = sorted(rng.sample(cand, min(len(cand), rng.randint(1, 2))))
+            chosen = sorted(rng.sample(cand, min(len(cand), rng.randint(1, 2))))
+            # raise a marker exception / or disable dispatching again, from inside the release
+            rs = [i for i in chosen if rng.random() < 0.5]
+            ds = [i for i in chosen if i not in rs]
+            if rs:
+                case['raisers'] = rs
+            if ds:
+                case['disablers'] = ds
     ref = Ref(case)
     ops = case['ops']
     hot = None                      # entity with a recent deferred delete
@@ -409,7 +465,7 @@ def gen_case(rng, nops_max=25, focus=None):
             # a probe while disabled only when somebody listens (else C04 leaves
             # open whether it is queued)
             listeners = [i for i in ref.attached() if 'p' in kinds[cls[i - 1] - 1]]
-            if not ref.enabled and (not listeners or raise_mode):
+            if raise_mode or (not ref.enabled and not listeners):
                 continue
             tok += 1
             ops.append(['probe', tok])
